@@ -243,4 +243,53 @@ theorem c07_assert_not_almost_equal : Correct "assert_not_almost_equal" cond_ass
   refine correct_of _ _ _ rfl fun c _ => ?_
   exact evalOutcome_pos c _ _ (eval_equalityTest_params c)
 
+/-! ## regular expressions (for every `re.search`) -/
+
+theorem c07_assert_regex : Correct "assert_regex" cond_assert_regex := by
+  refine correct_of _ _ _ rfl fun c _ => ?_
+  have h := evalOutcome_pos c _ _ (eval_regex c).1
+  rwa [notR_notR] at h
+
+theorem c07_assert_not_regex : Correct "assert_not_regex" cond_assert_not_regex := by
+  refine correct_of _ _ _ rfl fun c _ => ?_
+  exact evalOutcome_pos c _ _ (eval_regex c).2
+
+/-! ## printed output (for every captured output) -/
+
+theorem c07_assert_output : Correct "assert_output" cond_assert_output := by
+  refine correct_of _ _ _ rfl fun c hc => ?_
+  unfold cond_assert_output
+  rw [eval_or_errors1 c _ hc]
+  exact evalOutcome_not c _ _ (eval_output_equality c)
+
+theorem c07_assert_prints : Correct "assert_prints" cond_assert_prints := by
+  refine correct_of _ _ _ rfl fun c hc => ?_
+  unfold cond_assert_prints
+  rw [eval_or_errors1 c _ hc]
+  exact evalOutcome_not c _ _ (eval_output_equality c)
+
+theorem c07_assert_not_output : Correct "assert_not_output" cond_assert_not_output := by
+  refine correct_of _ _ _ rfl fun c _ => ?_
+  exact evalOutcome_pos c _ _ (eval_output_equality c)
+
+theorem c07_assert_output_contains : Correct "assert_output_contains" cond_assert_output_contains := by
+  refine correct_of _ _ _ rfl fun c _ => ?_
+  have h := evalOutcome_pos c _ _ (eval_output_contains c).2
+  rwa [notR_notR] at h
+
+theorem c07_assert_not_output_contains : Correct "assert_not_output_contains" cond_assert_not_output_contains := by
+  refine correct_of _ _ _ rfl fun c _ => ?_
+  exact evalOutcome_pos c _ _ (eval_output_contains c).1
+
+theorem c07_assert_output_regex : Correct "assert_output_regex" cond_assert_output_regex := by
+  refine correct_of _ _ _ rfl fun c hc => ?_
+  unfold cond_assert_output_regex
+  rw [eval_or_errors1 c _ hc]
+  have h := evalOutcome_pos c _ _ (eval_output_regex c).1
+  rwa [notR_notR] at h
+
+theorem c07_assert_not_output_regex : Correct "assert_not_output_regex" cond_assert_not_output_regex := by
+  refine correct_of _ _ _ rfl fun c _ => ?_
+  exact evalOutcome_pos c _ _ (eval_output_regex c).2
+
 end Pedal.Assertions
